@@ -86,9 +86,11 @@ def _ss_post_true(c):
             B.CONFIG_OPTS.has(opts1, KMAX),
             B.CONFIG_OPTS.get(opts1, KMAX) == B.s_offloat(q.fields['max_probability'].term),
             B.CONFIG_OPTS.get(opts1, KMIN) == B.s_offloat(q.fields['min_probability'].term)))),
-        ('omen_cursor_only_if_stopped_inside_omen', z3.Implies(
-            z3.And(B.CONFIG_OPTS.has(opts1, K_OMEN), z3.Not(B.CONFIG_OPTS.has(s0.fields['save_config'].fields['opts'].term, K_OMEN))),
-            s0.fields['pcfg'].fields['omen_exit'].term)),
+        # C15.once: the cursor option is in the saved options exactly when this process stopped inside a Markov level
+        # (an option restored from an earlier save is dropped once that level has been completed)
+        ('omen_cursor_iff_stopped_inside_omen', B.CONFIG_OPTS.has(opts1, K_OMEN) == s0.fields['pcfg'].fields['omen_exit'].term),
+        ('omen_cursor_value', z3.Implies(s0.fields['pcfg'].fields['omen_exit'].term,
+                                         B.CONFIG_OPTS.get(opts1, K_OMEN) == T.sofint(s0.fields['pcfg'].fields['omen_guess_num'].term))),
     ]
 
 
@@ -182,6 +184,8 @@ from contracts import guesser_lemmas as gl     # noqa: E402
 def _next_hook(eng, st, c2, e, exprs):
     """(1) log the popped item in $popped; (2) add the proved lemma C01.queue_step for this call."""
     if isinstance(c2.result, PNone):
+        if '$exhausted' in st.env:
+            st.env['$exhausted'] = zbool(True)
         return
     rt = box(c2.result, PTITEM)
     s0, s1 = c2.args['self'], c2.after['self']
@@ -202,29 +206,74 @@ _nx.assumed_ensures = lambda c: [] if isinstance(c.result, PNone) else [
 
 
 # ---- restore_omen (C15), trusted here ---------------------------------------------------------------
-class _Any(T.Shape):
-    def key(self):
-        return 'any'
+def _ro_ensures(c):
+    R = omn_rest(box(c.args['$omn'], OMN))
+    out0, out1 = c.args['$out'].term, c.after['$out'].term
+    res = c.result.term
+    return [('some_output', z3.And(res >= 0, z3.Length(out1) == z3.Length(out0) + res)),
+            ('exit_only_on_quit', z3.Implies(c.after['$exit_seen'].term, z3.Or(c.args['$exit_seen'].term, c.args['$quit'].term))),
+            ('exit_seen_monotone', z3.Implies(c.args['$exit_seen'].term, c.after['$exit_seen'].term)),
+            # C15.resume: exactly the remaining strings of the interrupted level, from the pickled cursor on, in order
+            ('remainder_prefix', z3.And(res <= z3.Length(R), out1 == z3.Concat(out0, take(res, R)))),
+            ('remainder_complete_unless_quit', z3.Implies(z3.Not(c.args['$quit'].term), res == z3.Length(R))),
+            ('early_stop_is_a_saved_quit', z3.Implies(res < z3.Length(R), z3.And(c.after['$exit_seen'].term,
+                                                                                 c.after['self'].fields['omen_exit'].term))),
+            ('omen_exit_only_on_quit', z3.Implies(z3.Not(c.after['$exit_seen'].term),
+                                                  c.after['self'].fields['omen_exit'].term == c.self.fields['omen_exit'].term))]
 
-
-ANY = _Any()
-OmenRestored = z3.Function('OmenRestored', OGS, T.Str, SEQ)
 
 Contract(
     MOD + ':PcfgGrammar.restore_omen',
-    params={'self': GRAMMAR_OBJ, 'omen_guess_num': TInt, 'pt_item': ANY, '$out': OUT, '$quit': TBool, '$exit_seen': TBool},
+    params={'self': GRAMMAR_OBJ, 'omen_guess_num': TInt, 'pt_item': ANY, '$out': OUT, '$quit': TBool, '$exit_seen': TBool, '$omn': OMN},
+    requires=lambda c: [('not_debug', z3.Not(c.self.fields['debug'].term))],
     result=TInt,
-    ensures=lambda c: [('some_output', z3.And(c.result.term >= 0, z3.Length(c.after['$out'].term) ==
-                                              z3.Length(c.args['$out'].term) + c.result.term)),
-                       ('exit_only_on_quit', z3.Implies(c.after['$exit_seen'].term,
-                                                        z3.Or(c.args['$exit_seen'].term, c.args['$quit'].term)))],
+    ensures=_ro_ensures,
     self_modifies=('omen_guess_num', 'omen_exit'),
-    trusted=True,
-    note='C15: continues the interrupted Markov level from the pickled cursor (assumed here)',
+    note='C15.resume: rebuilds the generator from the pickled cursor and continues the interrupted Markov level',
 )
 
 
+def _restore_hook(eng, st, c2, e, exprs):
+    """ghost bookkeeping at the call in run(): the resumed Markov remainder ends here ($mark)"""
+    if '$resumed' in st.env:
+        st.env['$resumed'] = zbool(True)
+        st.env['$mark'] = c2.after['$out']
+
+
+Contract.registry[MOD + ':PcfgGrammar.restore_omen'].call_hook = _restore_hook
+
+
 # ---- CrackingSession.run -------------------------------------------------------------------------------
+WITH_C15 = [False]       # set by props/C15: adds the resume clauses and ghosts ($omn, $mark, $resumed, $exhausted) to run
+
+
+def _c15_run_ensures(c):
+    opts0 = c.self.fields['save_config'].fields['opts'].term
+    opts1 = c.after['self'].fields['save_config'].fields['opts'].term
+    out0, out1 = c.args['$out'].term, c.after['$out'].term
+    mark = c.after['$mark'].term
+    R = omn_rest(box(c.args['$omn'], OMN))
+    resume = z3.And(c.load_session.term, B.CONFIG_OPTS.has(opts0, K_OMEN))
+    r = z3.Length(mark) - z3.Length(out0)
+    oe0 = c.self.fields['pcfg'].fields['omen_exit'].term
+    oe1 = c.after['self'].fields['pcfg'].fields['omen_exit'].term
+    loop_start = z3.If(c.after['$resumed'].term, mark, out0)        # the stream when the main loop started
+    limit_end = z3.And(lim_active(c.limit.term), z3.Length(out1) - z3.Length(loop_start) >= lim_val(c.limit.term))
+    return [
+        ('markov_level_resumed_first', z3.Implies(resume, z3.And(
+            c.after['$resumed'].term, 0 <= r, r <= z3.Length(R), mark == z3.Concat(out0, take(r, R)),
+            z3.Implies(z3.Not(c.args['$quit'].term), r == z3.Length(R)),
+            z3.Extract(out1, z3.IntVal(0), z3.Length(mark)) == mark))),
+        ('no_markov_resume_without_saved_cursor', z3.Implies(z3.Not(resume), z3.Not(c.after['$resumed'].term))),
+        # C15/C12: a stop inside a Markov level is followed by a save that records the cursor option
+        # (a run that ends because --limit is reached at that very guess is complete and, like every limit end, not saved)
+        ('markov_quit_is_saved', z3.Implies(z3.And(oe1, z3.Not(oe0), z3.Not(c.after['$exhausted'].term), z3.Not(limit_end)),
+                                            B.CONFIG_OPTS.has(opts1, K_OMEN))),
+        ('markov_quit_is_saved_when_queue_runs_empty', z3.Implies(z3.And(oe1, z3.Not(oe0), c.after['$exhausted'].term, z3.Not(limit_end)),
+                                                                  B.CONFIG_OPTS.has(opts1, K_OMEN))),
+    ]
+
+
 def _run_requires(c):
     s = c.self
     G = g_of(s.fields['pcfg'])
@@ -237,7 +286,9 @@ def _run_requires(c):
                 B.CONFIG_OPTS.has(opts, KMIN), B.CONFIG_OPTS.has(opts, KMAX)))),
             ('empty_log', z3.Length(c.args['$popped'].term) == 0),
             ('queue_mode', s.fields['mode'].term == T.str_lit('priority_queue')),
-            ('no_exit_yet', z3.Not(c.args['$exit_seen'].term))]
+            ('no_exit_yet', z3.Not(c.args['$exit_seen'].term))] + (
+        [('c15_ghosts_fresh', z3.And(z3.Not(c.args['$resumed'].term), z3.Not(c.args['$exhausted'].term),
+                                     z3.Not(s.fields['pcfg'].fields['omen_exit'].term)))] if WITH_C15[0] else [])
 
 
 def _written_since(c):
@@ -288,7 +339,7 @@ def _run_ensures(c):
         ('quit_saves_unguessed_position', z3.Implies(
             z3.And(fresh_run, all_but_last, z3.Not(all_emitted), z3.Not(z3.And(act, cut, _written_since(c) == L))),
             z3.And(quit_, saved_last))),
-    ]
+    ] + (_c15_run_ensures(c) if WITH_C15[0] else [])
 
 
 def _run_inv(L):
@@ -322,7 +373,13 @@ def _run_inv(L):
                                 z3.Not(s.fields['pcfg'].fields['debug'].term))),
         ('mode_kept', s.fields['mode'].term == e.args['self'].fields['mode'].term),
         ('disk_kept', L.env['$disk'].term == L.pre['$disk'].term),
-    ]
+    ] + ([
+        ('c15_ghosts', z3.And(L.env['$resumed'].term == L.pre['$resumed'].term, L.env['$mark'].term == L.pre['$mark'].term,
+                              z3.Implies(L.pre['$resumed'].term, L.pre['$mark'].term == out_start),
+                              z3.Not(L.env['$exhausted'].term))),
+        ('c15_omen_exit', z3.Implies(z3.Not(seen), s.fields['pcfg'].fields['omen_exit'].term ==
+                                     L.pre['self'].fields['pcfg'].fields['omen_exit'].term)),
+    ] if WITH_C15[0] else [])
 
 
 _run = Contract(
@@ -338,6 +395,14 @@ _run = Contract(
 )
 _run.volatile = {'should_exit': read_should_exit}
 _run.defaults = {'load_session': lambda: zbool(False), 'limit': lambda: PNone()}
+
+
+def enable_c15():
+    """C15 only: run() also carries the ghosts of the Markov resume ($omn: the .omn pickle, $mark: the stream when the resumed
+    remainder ended, $resumed, $exhausted: the queue returned None) and the clauses over them."""
+    WITH_C15[0] = True
+    _run.params.update({'$omn': OMN, '$mark': OUT, '$resumed': TBool, '$exhausted': TBool})
+    _run.loops[0].extra_writes = list(_run.loops[0].extra_writes) + ['$exhausted', '$omn']
 
 
 # ---- pcfg_guesser.parse_command_line (C09.limit.validated) -------------------------------------------
